@@ -24,7 +24,6 @@ import (
 	"runtime"
 	"slices"
 	"strings"
-	"sync"
 	"time"
 	"unsafe"
 
@@ -483,30 +482,18 @@ func (server *SugarDB) updateKeysInCache(ctx context.Context, keys []string) (in
 		}
 	}
 
-	wg := sync.WaitGroup{}
-	errChan := make(chan error)
-	doneChan := make(chan struct{})
-
+	// Bring the memory usage back under the limit, one database after the other: the databases share
+	// one memory figure, so the next database is only looked at if the usage is still at the limit.
+	var adjustErr error
 	for db, _ := range server.store {
-		wg.Add(1)
 		ctx := context.WithValue(ctx, "Database", db)
-		go func(ctx context.Context, database int, wg *sync.WaitGroup, errChan *chan error) {
-			if err := server.adjustMemoryUsage(ctx); err != nil {
-				*errChan <- fmt.Errorf("adjustMemoryUsage database %d, error: %v", database, err)
-			}
-			wg.Done()
-		}(ctx, db, &wg, &errChan)
+		// A database that has nothing (left) to evict reports an error; the others are still tried.
+		if err := server.adjustMemoryUsage(ctx); err != nil {
+			adjustErr = fmt.Errorf("adjustMemoryUsage error: adjustMemoryUsage database %d, error: %v", db, err)
+		}
 	}
-
-	go func() {
-		wg.Wait()
-		doneChan <- struct{}{}
-	}()
-
-	select {
-	case err := <-errChan:
-		return touchCounter, fmt.Errorf("adjustMemoryUsage error: %+v", err)
-	case <-doneChan:
+	if adjustErr != nil {
+		return touchCounter, adjustErr
 	}
 
 	return touchCounter, nil
